@@ -492,12 +492,19 @@ pub fn compile_withdrawals(
     tx: &tir::Tx,
     network: Network,
 ) -> Result<Option<BTreeMap<primitives::RewardAccount, primitives::Coin>>, Error> {
-    let withdrawals: BTreeMap<_, _> = tx
-        .adhoc
-        .iter()
-        .filter(|x| x.name.as_str() == "withdrawal")
-        .map(|adhoc| compile_withdrawal_directive(adhoc, network))
-        .collect::<Result<_, _>>()?;
+    let mut withdrawals = BTreeMap::new();
+
+    for adhoc in tx.adhoc.iter().filter(|x| x.name.as_str() == "withdrawal") {
+        let (account, amount) = compile_withdrawal_directive(adhoc, network)?;
+
+        // the ledger has one amount per reward account: a second directive for the
+        // same account would silently replace the first
+        if withdrawals.insert(account, amount).is_some() {
+            return Err(Error::ConsistencyError(
+                "more than one withdrawal from the same reward account".to_string(),
+            ));
+        }
+    }
 
     if withdrawals.is_empty() {
         Ok(None)
@@ -585,6 +592,19 @@ fn compile_validity(validity: Option<&tir::Validity>) -> Result<(Option<u64>, Op
 }
 
 fn compile_donation(tx: &tir::Tx) -> Result<Option<pallas::codec::utils::PositiveCoin>, Error> {
+    // the body has one donation field: a second directive would be ignored
+    if tx
+        .adhoc
+        .iter()
+        .filter(|x| x.name.as_str() == "treasury_donation")
+        .count()
+        > 1
+    {
+        return Err(Error::ConsistencyError(
+            "more than one treasury donation".to_string(),
+        ));
+    }
+
     tx.adhoc
         .iter()
         .find(|x| x.name.as_str() == "treasury_donation")
